@@ -152,6 +152,22 @@ class Categorize(Factory, Container):
         """Attempt to get key ``x``, returning an alternative if it does not exist."""
         return self.bins.get(x, default)
 
+
+    def _checkContentCompatible(self, other):
+        """Raise ContainerException unless the sub-aggregators of ``self`` and ``other`` can be added.
+
+        Bins are created on demand, so two operands with no bin index in common would otherwise never compare
+        their contents and merge into a container holding sub-aggregators of mixed types.
+        """
+        if self.contentType != other.contentType:
+            raise ContainerException(
+                f"cannot add {self.name}s because content type differs ({self.contentType} vs {other.contentType})"
+            )
+        mine = self.value if self.value is not None else next(iter(self.bins.values()), None)
+        theirs = other.value if other.value is not None else next(iter(other.bins.values()), None)
+        if mine is not None and theirs is not None:
+            mine.zero() + theirs.zero()
+
     @inheritdoc(Container)
     def zero(self):
         out = Categorize(self.quantity, self.value)
@@ -163,6 +179,7 @@ class Categorize(Factory, Container):
     @inheritdoc(Container)
     def __add__(self, other):
         if isinstance(other, Categorize):
+            self._checkContentCompatible(other)
             out = Categorize(self.quantity, self.value)
             out.entries = self.entries + other.entries
             out.contentType = self.contentType
@@ -182,6 +199,7 @@ class Categorize(Factory, Container):
     @inheritdoc(Container)
     def __iadd__(self, other):
         if isinstance(other, Categorize):
+            self._checkContentCompatible(other)
             self.entries += other.entries
             for k in self.keySet.union(other.keySet):
                 if k in self.bins and k in other.bins:
